@@ -30,16 +30,20 @@ const (
 	rcRefHeld = 100 // +j
 	rcCtxBg0  = 150 // +i  rcCtxChange (context changes begun) when call i started
 	rcErrRel0 = 160 // +i  call i returned an error together with a release function
+	rcZero    = 170 // some call returned the zero value successfully (rcRet0 = 3)
 )
 
 // resolver scripts
 const (
-	mValue      = iota // return value + release func
-	mError             // return an error
-	mLate              // return the value only after the resolver context is cancelled
-	mSlow              // take two steps, then return the value
-	mInvalidate        // return the value; a separate thread calls released() at any time
-	mErrorRel          // return an error together with a release function (which must still run exactly once)
+	mValue       = iota // return value + release func
+	mError              // return an error
+	mLate               // return the value only after the resolver context is cancelled
+	mSlow               // take two steps, then return the value
+	mInvalidate         // return the value; a separate thread calls released() at any time
+	mErrorRel           // return an error together with a (partial) value and a release function (which must still run exactly once)
+	mZeroRel            // return the zero value with a release function and no error
+	mErrCanceled        // return the error context.Canceled itself although the resolver context is live
+	mEarlyInv           // call released() synchronously while still resolving, then return the value (already invalidated)
 )
 
 var errResolve = errors.New("resolve-error")
@@ -50,7 +54,7 @@ type rcEnv struct {
 	rc        *refcount.RefCount[int]
 	target    *ccontainer.CContainer[int]
 	targetErr *ccontainer.CContainer[*error]
-	onRelease func(i int) // optional: runs inside the release function of call i
+	onRelease func(i int)  // optional: runs inside the release function of call i
 	gate2     *vsched.Gate // optional: resolver call 2 waits for it before returning
 }
 
@@ -98,17 +102,29 @@ func newRC2Opt(ctx context.Context, keep bool, script func(i int) int, noErrTarg
 				vsched.CtrSet(rcInv0+i, 1)
 				released()
 			})
+		case mEarlyInv:
+			vsched.CtrSet(rcInv0+i, 1)
+			released()
 		}
 		vsched.CtrAdd(rcResolving, -1)
 		if mode == mErrorRel {
 			vsched.CtrSet(rcRet0+i, 2)
 			vsched.CtrSet(rcErrRel0+i, 1)
 			vsched.Observe(oExit, int64(i), 3, 0)
-			return 0, func() { e.releaseFn(i) }, errResolve
+			return valOf(i), func() { e.releaseFn(i) }, errResolve
 		}
-		if mode == mError {
+		if mode == mZeroRel {
+			vsched.CtrSet(rcRet0+i, 3)
+			vsched.CtrSet(rcZero, 1)
+			vsched.Observe(oExit, int64(i), 4, 0)
+			return 0, func() { e.releaseFn(i) }, nil
+		}
+		if mode == mError || mode == mErrCanceled {
 			vsched.CtrSet(rcRet0+i, 2)
 			vsched.Observe(oExit, int64(i), 2, 0)
+			if mode == mErrCanceled {
+				return 0, nil, context.Canceled
+			}
 			return 0, nil, errResolve
 		}
 		vsched.CtrSet(rcRet0+i, 1)
@@ -154,6 +170,16 @@ func refCb(j int) func(bool, int, error) {
 		vsched.CtrSet(rcLastRes+j, 1+b2i(resolved))
 		vsched.CtrSet(rcLastVal+j, int64(val))
 		vsched.CtrSet(rcLastErr+j, b2i(err != nil))
+		if resolved && err == nil && val == 0 && vsched.Ctr(rcZero) != 0 {
+			// (a resolver call resolved the zero value)
+			for i := int(vsched.Ctr(rcCalls)); i >= 1; i-- {
+				if i <= 8 && vsched.Ctr(rcRet0+i) == 3 {
+					vsched.CtrSet(rcDeliv0+i, 1)
+					break
+				}
+			}
+			return
+		}
 		if resolved && err == nil {
 			i := val - 100
 			if i < 1 || i > 8 || vsched.Ctr(rcRet0+i) != 1 {
@@ -209,6 +235,7 @@ func (e *rcEnv) setContext(ctx context.Context) {
 // quiescentOracle (C09): with a context and a held reference, a resolver call is in progress
 // or the latest result is in the containers and in every held reference's last callback.
 func (e *rcEnv) quiescentOracle(heldRefs []int) {
+	e.invalidatedReleased()
 	if vsched.Ctr(rcCtxSet) == 0 || vsched.Ctr(rcHeld) == 0 {
 		return
 	}
@@ -237,7 +264,11 @@ func (e *rcEnv) quiescentOracle(heldRefs []int) {
 		fail("C09.invalidated-value-kept", "released() was called for value %d but at quiescence it is still the current value: it was not dropped and resolved afresh", v)
 		return
 	}
-	if last == 1 {
+	if last == 3 {
+		if v != 0 || (perr != nil && *perr != nil) {
+			fail("C09.result-not-delivered", "latest resolver call %d resolved the zero value but target=%d targetErr=%v", n, v, perr)
+		}
+	} else if last == 1 {
 		if v != valOf(n) || (perr != nil && *perr != nil) {
 			fail("C09.result-not-delivered", "latest resolver call %d returned %d but target=%d targetErr=%v", n, valOf(n), v, perr)
 		}
@@ -252,8 +283,23 @@ func (e *rcEnv) quiescentOracle(heldRefs []int) {
 		if last == 1 && (res != 2 || lv != valOf(n) || le != 0) {
 			fail("C09.result-not-delivered", "held reference %d was last told (res=%d,val=%d,err=%d), latest result is value %d", j, res, lv, le, valOf(n))
 		}
+		if last == 3 && (res != 2 || lv != 0 || le != 0) {
+			fail("C09.result-not-delivered", "held reference %d was last told (res=%d,val=%d,err=%d), latest result is the zero value", j, res, lv, le)
+		}
 		if last == 2 && (res != 2 || le != 1) {
 			fail("C09.result-not-delivered", "held reference %d was last told (res=%d,val=%d,err=%d), latest result is an error", j, res, lv, le)
+		}
+	}
+}
+
+// invalidatedReleased (C08): at quiescence a value whose released() callback was invoked has been released,
+// whether or not references are held.
+func (e *rcEnv) invalidatedReleased() {
+	n := int(vsched.Ctr(rcCalls))
+	for i := 1; i <= n && i <= 8; i++ {
+		if vsched.Ctr(rcInv0+i) != 0 && vsched.Ctr(rcRet0+i) == 1 && vsched.Ctr(rcRel0+i) != 1 {
+			fail("C08.not-released", "released() was invoked for resolver call %d, which returned value %d: at quiescence its release function ran %d times", i, valOf(i), vsched.Ctr(rcRel0+i))
+			return
 		}
 	}
 }
@@ -269,6 +315,21 @@ func (e *rcEnv) finalRelease() {
 			if rel := vsched.Ctr(rcRel0 + i); rel != 1 {
 				fail("C08.not-released", "resolver call %d returned an error together with a release function, which ran %d times although no reference is held any more", i, rel)
 			}
+		}
+		if vsched.Ctr(rcRet0+i) == 3 {
+			// the zero value resolved with a release function: kept only while it is the latest result and held / kept
+			rel := vsched.Ctr(rcRel0 + i)
+			ctxChanged := vsched.Ctr(rcCtxDone) > vsched.Ctr(rcCtxBg0+i)
+			if i == n && !ctxChanged && vsched.Ctr(rcInv0+i) == 0 && vsched.Ctr(rcHeld) > 0 && vsched.Ctr(rcDeliv0+i) != 0 {
+				if rel != 0 {
+					fail("C08.released-while-current", "the zero value of call %d is the current result and was delivered to a held reference but its release function already ran", i)
+				}
+			} else if i == n && !ctxChanged && vsched.Ctr(rcInv0+i) == 0 && keepOK {
+				// kept, or dropped in flight and released on arrival: the (zero) target cannot tell which
+			} else if rel != 1 {
+				fail("C08.not-released", "resolver call %d resolved the zero value together with a release function, which ran %d times at final quiescence (held refs=%d keep=%d ctx=%d)", i, rel, vsched.Ctr(rcHeld), vsched.Ctr(rcKeep), vsched.Ctr(rcCtxSet))
+			}
+			continue
 		}
 		if vsched.Ctr(rcRet0+i) != 1 {
 			continue
@@ -373,13 +434,10 @@ func init() {
 			e.finalRelease()
 		},
 	})
-	eng.Register(&eng.Scenario{
-		Name: "refcount-held", Props: []string{"C09", "C08"}, MustFinish: true, ObsNames: stdObs,
-		Doc:   "RefCount (with or without an error container, choice): a reference stays held while a second user comes and goes, a context thread does {SetContext(c2) | ClearContext;SetContext(c2) | nothing} and the first value may be invalidated by released(); at quiescence the latest result must be in the containers and in every held reference's last callback",
-		Quick: eng.Bounds{PB: 3, Delay: true}, Thorough: eng.Bounds{PB: 4, Delay: true},
-		Body: func() {
+	heldBody := func(modes []int) func() {
+		return func() {
 			keep := vsched.Choose(2) == 1
-			e := newRC2Opt(bg, keep, firstThen([]int{mValue, mInvalidate, mError, mSlow, mErrorRel}[vsched.Choose(5)]), vsched.Choose(2) == 1)
+			e := newRC2Opt(bg, keep, firstThen(modes[vsched.Choose(len(modes))]), vsched.Choose(2) == 1)
 			ref := e.rc.AddRef(refCb(0))
 			vsched.CtrSet(rcRefHeld+0, 1)
 			vsched.CtrAdd(rcHeld, 1)
@@ -412,7 +470,19 @@ func init() {
 			e.setContext(nil)
 			vsched.Settle()
 			e.finalRelease()
-		},
+		}
+	}
+	eng.Register(&eng.Scenario{
+		Name: "refcount-held", Props: []string{"C09", "C08"}, MustFinish: true, ObsNames: stdObs,
+		Doc:   "RefCount (with or without an error container, choice): a reference stays held while a second user comes and goes, a context thread does {SetContext(c2) | ClearContext;SetContext(c2) | nothing} and the first value may be invalidated by released(); at quiescence the latest result must be in the containers and in every held reference's last callback",
+		Quick: eng.Bounds{PB: 3, Delay: true}, Thorough: eng.Bounds{PB: 4, Delay: true},
+		Body: heldBody([]int{mValue, mInvalidate, mError, mSlow, mErrorRel}),
+	})
+	eng.Register(&eng.Scenario{
+		Name: "refcount-outcomes", Props: []string{"C08", "C09"}, MustFinish: true, ObsNames: stdObs,
+		Doc:   "RefCount: as refcount-held with the unusual resolver outcomes for the first call: an error together with a partial value and a release function, the zero value together with a release function, released() invoked synchronously before the value is returned (the value is stale on arrival: released, resolved afresh)",
+		Quick: eng.Bounds{PB: 3, Delay: true}, Thorough: eng.Bounds{PB: 4, Delay: true},
+		Body: heldBody([]int{mErrorRel, mZeroRel, mEarlyInv}),
 	})
 	eng.Register(&eng.Scenario{
 		Name: "refcount-drop-inflight", Props: []string{"C09", "C08"}, MustFinish: true, ObsNames: stdObs,
